@@ -18,7 +18,8 @@ Definition to_indexable (c : cond) : option icond :=
            match arg with
            | VSet _ => None
            | VOpt None => None      (* every optional value includes the empty one *)
-           | VMap m => Some (mkICond col (fst <$> map_to_list m) arg)
+           | VMap m => if decide (m = ∅) then None      (* every map includes the empty one *)
+                       else Some (mkICond col (fst <$> map_to_list m) arg)
            | _ => Some (mkICond col [] arg)
            end
        | _ => None
